@@ -334,6 +334,114 @@ def side(o):
 
 
 # ----------------------------------------------------------------------------
+# sequence family: straight-line programs whose statements depend on earlier ones (state, caches, call depth)
+# ----------------------------------------------------------------------------
+def _chain_class(name, depth):
+  """class whose __init__ reaches its attribute assignment through `depth` nested helper calls"""
+  L = ["class %s:" % name, "  def __init__(self):"]
+  if depth == 0:
+    L.append("    self.val = 1")
+  else:
+    L.append("    self._s1()")
+    for d in range(1, depth + 1):
+      L.append("  def _s%d(self):" % d)
+      L.append("    self.val = 1" if d == depth else "    self._s%d()" % (d + 1))
+  L += ["  def get(self):", "    return self.val"]
+  return "\n".join(L) + "\n"
+
+
+def sequence_family():
+  """[(preamble, [statement lines])]; every statement is `name = expr` or an expression statement, executed in
+  order in ONE namespace.  Families: (a) ==-equal tuple/constant literals of different element types used later;
+  (b) instances whose attributes are set 0-3 helper calls below __init__; (c) attribute rebound through an outer
+  object between two identical method calls.  (Containers mutated between reads are not included: their element
+  types become unions and pytype, by design, only reports when every member fails.)"""
+  out = []
+  # (a)
+  pairs = [("(1, 2)", "(1.0, 2.0)"), ("(1, 'a')", "(1.0, 'a')"), ("(True, 0)", "(1, 0)"), ("(0,)", "(False,)"),
+           ("(1, (2, 3))", "(1, (2.0, 3))"), ("1", "1.0"), ("0", "False"), ("frozenset({1})", "frozenset({1.0})")]
+  probes = ["{x}[0].hex()", "{x}[0].bit_length()", "{x}[0].real", "{x}[0].is_integer()", "{x}[0] + 'a'", "-{x}[0]",
+            "{x}[-1].upper()", "{x}[0].conjugate()"]
+  for a, b in pairs:
+    for first, second in ((a, b), (b, a)):
+      st = ["p = %s" % first, "q = %s" % second]
+      for pr in probes:
+        if not first.startswith("(") and "[" in pr:
+          pr = pr.replace("{x}[0]", "{x}").replace("{x}[-1]", "{x}")
+        st.append(pr.format(x="p"))
+        st.append(pr.format(x="q"))
+      out.append(("", st))
+  # (b)
+  for depth in range(0, 4):
+    pre = _chain_class("Ch%d" % depth, depth)
+    st = ["o = Ch%d()" % depth, "o.val", "o.get()", "o.nope", "o.nope_method()", "o.val.bit_length()", "o.val.upper()",
+          "o.get() + 1", "o.get() + 'a'", "o()", "o[0]", "-o"]
+    out.append((pre, st))
+  # (c)
+  pre = ("class In:\n  def __init__(self, v):\n    self.v = v\n"
+         "class Out:\n  def __init__(self, i):\n    self.inner = i\n  def get(self):\n    return self.inner.v\n")
+  for v1, v2, p1, p2 in (("1", "'s'", "+ 1", "+ 't'"), ("'s'", "1", "+ 't'", "+ 1"), ("1", "2.5", ".bit_length()", ".hex()"),
+                         ("[1]", "(1,)", ".append(2)", ".count(1)")):
+    st = ["i = In(%s)" % v1, "o = Out(i)", "o.get() %s" % p1, "o.get() %s" % p2, "o.inner.v = %s" % v2,
+          "o.get() %s" % p1, "o.get() %s" % p2]
+    # (not continued with `i.v = …` through the alias: on the unchanged tree the result of o.get() is then stale —
+    # the call cache is keyed by o's own members — which is outside the fragment the property names)
+    out.append((pre, st))
+  return out
+
+
+def sequence_cpython(pre, stmts):
+  """per statement: 'OK' | 'TE' | 'AE' | 'EX', executing the statements in order in one namespace"""
+  ns = {}
+  outs = []
+  with warnings.catch_warnings():
+    warnings.simplefilter("ignore")
+    exec(compile(pre, "<pre>", "exec"), ns)  # pylint: disable=exec-used
+    for s_ in stmts:
+      try:
+        exec(compile(s_, "<stmt>", "exec"), ns)  # pylint: disable=exec-used
+        outs.append("OK")
+      except TypeError:
+        outs.append("TE")
+      except AttributeError:
+        outs.append("AE")
+      except BaseException:  # pylint: disable=broad-except
+        outs.append("EX")
+  return outs
+
+
+ADVERTISED_ERRS = {"attribute-error", "unsupported-operands", "not-callable"}
+
+
+def k_sequences(res, disagreements):
+  """the property's own oracle on the sequence family (no model involved): clause 1 — a flagged statement raises
+  TypeError/AttributeError under CPython; clause 2 — a statement that raises one of them through a missing
+  attribute/method, an unsupported + - * / unary-minus or subscript, or a call of a non-callable is flagged."""
+  fam = sequence_family()
+  runs = B.run_modules([(pre, st, False) for pre, st in fam])
+  n = flagged = raised = 0
+  for (pre, st), (per, stray) in zip(fam, runs):
+    outs = sequence_cpython(pre, st)
+    if stray:
+      disagreements.append({"case": "sequence-stray-error", "pre": pre, "stmts": st, "errors": stray})
+    for i, ((errs, _), out) in enumerate(zip(per, outs)):
+      n += 1
+      flagged += bool(errs)
+      raised += out in ("TE", "AE")
+      if any(e.startswith("CRASH") for e in errs):
+        disagreements.append({"case": "sequence-crash", "pre": pre, "stmts": st, "line": i, "errors": errs})
+      elif errs and side(out) == "good":
+        disagreements.append({"case": "sequence-clause1", "pre": pre, "stmts": st[:i + 1], "stmt": st[i], "pytype": errs,
+                              "cpython": out})
+      elif not errs and side(out) == "bad":
+        disagreements.append({"case": "sequence-clause2", "pre": pre, "stmts": st[:i + 1], "stmt": st[i], "pytype": errs,
+                              "cpython": out})
+  res.cov["sequence_family"] = {"programs": len(fam), "statements": n, "flagged_by_pytype": flagged,
+                                "raising_under_cpython": raised}
+  return n
+
+
+# ----------------------------------------------------------------------------
 # K
 # ----------------------------------------------------------------------------
 def build_cases(rng, tier):
@@ -483,7 +591,8 @@ def correspond(res, rng, tier):
                             "group": g.source(), "cpython": out, "model": mcpy})
     if errs or out != "OK" or mpy.startswith("ok:v") or mpy == "ok:N":
       nontrivial.add(g.source() + text)
-  res.cov["evaluations"] = len(bcases) + n_user
+  n_seq = k_sequences(res, disagreements)
+  res.cov["evaluations"] = len(bcases) + n_user + n_seq
   res.cov["distinct_nontrivial"] = len(nontrivial)
   res.cov["exhaustive"] = False
   res.cov["rule"] = (
@@ -496,7 +605,11 @@ def correspond(res, rng, tier):
       "attributes; statements under + - * / (user/user and user/builtin), [], unary -, call, attribute, method "
       "call; compared: pytype error names and inferred result type per line vs the Lean model (driver), CPython "
       "outcome vs the model's CPython side. non-trivial = pytype reports an error or CPython raises or a user "
-      "method's return value is the result; distinct = distinct (class definitions, statement) texts" % PER_MODULE)
+      "method's return value is the result; distinct = distinct (class definitions, statement) texts.  Sequence "
+      "family (property oracle, no model): straight-line programs whose statements depend on earlier ones — ==-equal "
+      "constant tuples of different element types, attributes set 0-3 helper calls below __init__, an attribute "
+      "rebound through an outer object between identical method calls — executed cumulatively under CPython, every "
+      "statement compared with pytype's verdict in both directions" % PER_MODULE)
   res.cov["distribution"] = {
       "builtin_statements": len(bcases), "builtin_with_pytype_error": n_err, "builtin_rows_by_kind": kinds_hit,
       "user_statements": n_user, "user_groups": len(groups), "user_model_error_kinds": err_kinds,
@@ -567,9 +680,36 @@ def search(res, rng, disagreements, pfail):
     if (pre, stmt) not in seen:
       seen.add((pre, stmt))
       cands.append((pre, stmt, row, adv, group))
+  # 0. sequence-family disagreements are failing inputs of the property's oracle as they stand: re-confirm on the
+  #    real code and shrink the statement list (the failing statement is kept)
+  seq_found = []
+  for d in disagreements:
+    if not d.get("case", "").startswith("sequence-clause") or len(seq_found) >= 2:
+      continue
+    pre, st = d["pre"], d["stmts"]
+    want = d["case"]
+
+    def fails(lines, pre=pre, want=want, last=st[-1]):
+      if not lines or lines[-1] != last:
+        return False
+      per, _ = B.run_modules([(pre, lines, False)])[0]
+      outs = sequence_cpython(pre, lines)
+      errs, out = per[-1][0], outs[-1]
+      return (want == "sequence-clause1" and bool(errs) and side(out) == "good") or \
+             (want == "sequence-clause2" and not errs and side(out) == "bad")
+    if fails(st):
+      small = common.ddmin(st, fails, budget_s=40, keep=lambda l: l == st[-1])
+      per, _ = B.run_modules([(pre, small, False)])[0]
+      seq_found.append({"clause": 1 if want.endswith("1") else 2, "classes": pre or None, "statements": small,
+                        "statement": small[-1], "pytype_errors": per[-1][0], "cpython": sequence_cpython(pre, small)[-1],
+                        "what": "straight-line program: the last statement is %s" % (
+                            "flagged although it raises neither TypeError nor AttributeError" if want.endswith("1")
+                            else "not flagged although CPython raises TypeError/AttributeError for a basic mistake")})
+  if seq_found:
+    return seq_found
   # 1. the disagreeing inputs and type probes derived from them
   for d in disagreements:
-    if "stmt" not in d:
+    if "stmt" not in d or d.get("case", "").startswith("sequence-"):
       continue
     pre = B.PREAMBLE if d.get("pre") == "builtin" else d.get("pre", B.PREAMBLE)
     if d.get("modelrow") in known:
